@@ -1239,6 +1239,25 @@ impl<'h, A: Kind, B: Kind, C: Kind> Run<'h, A, B, C> {
     fn tail(&mut self) {
         match self.h.prop {
             Prop::C01 | Prop::C17 => {
+                // C17, a history with a fault in it: the first live entity gets a component whose
+                // destructor panics, is deleted immediately, the panic is caught; its index must
+                // still come back (the drain below asks for it)
+                if self.h.prop == Prop::C17 {
+                    if let Some(s) = (0..self.m.st.len()).find(|s| self.m.st[*s] != St::Dead) {
+                        let e = self.m.handles[s];
+                        let ok = self.w.write_storage::<A>().insert(e, A::make(4242)).is_ok();
+                        if ok {
+                            crate::comps::ledger_arm_next();
+                            let r = crate::util::catch(|| self.w.delete_entity(e));
+                            self.obs(r.is_ok() as u64);
+                            if self.w.entities().is_alive(e) {
+                                fail!(self, Prop::C17, "fault: slot {} still alive after a deletion whose component destructor panicked", s);
+                            } else {
+                                self.m.die(s);
+                            }
+                        }
+                    }
+                }
                 // drain the free list through both allocation paths, alternating
                 let extra = self.m.st.iter().filter(|s| **s == St::Dead).count() + 2;
                 let keep = self.h.n_create;
@@ -1381,6 +1400,11 @@ impl<'h, A: Kind, B: Kind, C: Kind> Run<'h, A, B, C> {
         }
         if n > 0 {
             v.push(Op::DeleteAll);
+        }
+        if self.h.alphabet == Alphabet::E1 && self.h.prop == Prop::C17 && budget >= 1 && self.m.queue.is_empty() {
+            // entities born inside maintain, after the deletions of the same maintain were merged:
+            // they must find the indices freed a moment ago
+            v.extend([Op::LazyExecCreateNow, Op::LazyExecEntCreate]);
         }
         if self.h.alphabet >= Alphabet::E2 {
             let nk = if self.h.alphabet == Alphabet::E3 { 2 } else { 3 };
